@@ -49,6 +49,15 @@ void vf_set_defaults_tune(void) { for (int i = 1; i <= 7; i++) vf_tune[i] = slu_
 long vf_n_overrun = 0; char vf_last_overrun[256];
 static int rz_ok(const void *p, size_t size) { const unsigned char *q = (const unsigned char *)p + size; for (int i = 0; i < VF_RZ; i++) if (q[i] != VF_RZ_BYTE) return 0; return 1; }
 
+/* input_error (SRC/input_error.c, compiled as slu_input_error) only prints; the recorder keeps the routine name and the
+ * parameter number of every report so that C18 can also judge routines without an info argument (sp_xgemv). */
+extern void slu_input_error(char *srname, int *info);
+__thread int vf_ie_count; __thread int vf_ie_last; __thread char vf_ie_name[16];
+int input_error(char *srname, int *info)
+{
+    vf_ie_count++; vf_ie_last = *info; snprintf(vf_ie_name, sizeof vf_ie_name, "%s", srname);
+    slu_input_error(srname, info); return 0;
+}
 /* user_bcopy (SRC/memory.c, compiled as slu_user_bcopy) moves the arrays behind an expanded one forward inside a caller
    workspace; the range it vacates becomes the not-yet-written tail of the expanded array.  Poison it, so that a stale
    pointer into the old location reads garbage deterministically instead of a still-intact copy. */
